@@ -594,6 +594,10 @@ class Model:
         if isinstance(p, ast.Starred):
             ev("read", f, p, m, detail="unpacked")
             return
+        if isinstance(p, ast.Dict) and any(v is r and k is None for k, v in zip(p.keys, p.values)):
+            # `{**c, ...}`: a fresh dict that holds the container's entries - the same thing as dict(c) / c.copy()
+            ev("copy", f, p, m, detail="entries copied (shallow) by dict unpacking {**c}")
+            return
         # --- iteration
         if isinstance(p, (ast.For, ast.AsyncFor)) and p.iter is r:
             ev("read", f, p, m, detail="iterated")
@@ -1463,41 +1467,104 @@ def r2_cache_keys(ctx, rid):
                     ctx.ok(rid, g, st.node, f"every input of the cached value ({_minimal(vroots)}) is covered by the key "
                            f"`{norm(st.key)}` ({sorted(kroots)})", facts, label=label)
     # ---- (b) import of a generated module by a computed name == cache lookup in sys.modules keyed by that name
+    # The "compilation unit" is found by role, not by where the statements happen to live: the function that writes the generated
+    # source (directly or inside private helpers, which are spliced in: engine.inline) and reaches the import - directly, or by
+    # calling the private helper(s) that perform it; the module-name roots are then translated through the call's arguments.
     for f, call, name_exprs, shown in _import_by_name_sites(ctx, md):
-        writes = [n for n in walk_shallow(f.node) if isinstance(n, ast.Call) and isinstance(n.func, ast.Attribute)
-                  and n.func.attr in ("write", "writelines") and n.args]
-        if not writes:
-            ctx.info(rid, f, call, f"dynamic import `{shown}` of a module this function did not generate (user package lookup); not a "
-                     f"cache of generated code", label=f"import-by-name {shown}")
-            continue
-        sl = Slicer(ctx, f)
-        kroots = set()
+        label = f"import-by-name {shown}"
+        sl0 = Slicer(ctx, f)
+        k0 = set()
         for x in name_exprs:
-            kroots |= sl.roots(x)
-        vroots = set()
-        for w in writes:
-            vroots |= sl.roots(w.args[0])
-        missing = _minimal({p for p in vroots if not _covered(p, kroots)})
-        cfg = ctx.cfg(f)
-        st_imp = stmt_of(cfg, call)
+            k0 |= sl0.roots(x)
+        hosts = _import_hosts(ctx, md, rid, f, call, k0, 3)
+        if not hosts:
+            ctx.info(rid, f, call, f"dynamic import `{shown}` of a module this function did not generate (user package lookup); not a "
+                     f"cache of generated code", label=label)
+            continue
         # an unconditional removal of the same sys.modules entry before the import makes the lookup miss every time
         # ... and so does an unconditional store of a module this function just built under that name
-        dropped = False
-        for e in md.sys_modules.events:
-            if e.f is f and e.kind in ("del", "mutcall", "store") and e.key is not None and sl.roots(e.key) == kroots:
-                st_del = stmt_of(cfg, e.node)
-                if st_del is not None and st_imp is not None and st_del is not st_imp and cfg.dominates(st_del, st_imp):
-                    dropped = True
-        facts = {"import": shown, "module_name_roots": sorted(kroots), "written_source_roots": _minimal(vroots),
-                 "not_determined_by_name": missing, "entry_refreshed_before_import": dropped}
-        label = f"import-by-name {shown}"
-        if missing and not dropped:
-            ctx.violation(rid, f, call, f"`{shown}` looks the generated module up in sys.modules under a name built from {sorted(kroots)}, "
-                          f"while the module's source written by this function is built from {missing}: a second model generated under "
-                          f"the same file name in one process gets the module (and vector field) compiled for the first", facts, label=label)
-        else:
-            ctx.ok(rid, f, call, "the module name covers every input of the generated source" if not missing else
-                   "the sys.modules entry of that name is removed or replaced on every path before the import", facts, label=label)
+        dropped0 = _entry_refreshed(ctx, md, f, call, k0)
+        for g, anchor, kroots, view, writes in hosts:
+            sl = Slicer(ctx, view)
+            vroots = set()
+            for w in writes:
+                vroots |= sl.roots(w.args[0])
+            missing = _minimal({p for p in vroots if not _covered(p, kroots)})
+            dropped = dropped0 or (g is not f and _entry_refreshed(ctx, md, g, anchor, kroots))
+            facts = {"import": shown, "module_name_roots": sorted(kroots), "written_source_roots": _minimal(vroots),
+                     "not_determined_by_name": missing, "entry_refreshed_before_import": dropped}
+            if g is not f:
+                facts["import_performed_in"] = f.qualname
+            if missing and not dropped:
+                ctx.violation(rid, g, anchor, f"`{shown}` looks the generated module up in sys.modules under a name built from {sorted(kroots)}, "
+                              f"while the module's source written by this function is built from {missing}: a second model generated under "
+                              f"the same file name in one process gets the module (and vector field) compiled for the first", facts, label=label)
+            else:
+                ctx.ok(rid, g, anchor, "the module name covers every input of the generated source" if not missing else
+                       "the sys.modules entry of that name is removed or replaced on every path before the import", facts, label=label)
+
+
+def _source_writes(view: FunctionInfo) -> List[ast.Call]:
+    return [n for n in walk_shallow(view.node) if isinstance(n, ast.Call) and isinstance(n.func, ast.Attribute)
+            and n.func.attr in ("write", "writelines") and n.args]
+
+
+def _entry_refreshed(ctx, md, f, anchor, kroots) -> bool:
+    cfg = ctx.cfg(f)
+    st_imp = stmt_of(cfg, anchor)
+    sl = Slicer(ctx, f)
+    for e in md.sys_modules.events:
+        if e.f is f and e.kind in ("del", "mutcall", "store") and e.key is not None and sl.roots(e.key) == kroots:
+            st_del = stmt_of(cfg, e.node)
+            if st_del is not None and st_imp is not None and st_del is not st_imp and cfg.dominates(st_del, st_imp):
+                return True
+    return False
+
+
+def _import_hosts(ctx, md, rid, f, anchor, kroots, depth):
+    """[(function g, node in g that stands for the import, module-name roots in g's terms, view of g with its private helpers
+    spliced in, source writes in that view)] - g is f itself when f writes the source, else the callers of the private helper f."""
+    from engine.inline import inlined
+    view = inlined(ctx, f)
+    writes = _source_writes(view)
+    if writes:
+        return [(f, anchor, kroots, view, writes)]
+    if depth <= 0 or not f.name.startswith("_") or f.name.startswith("__"):
+        return []
+    out = []
+    for g, cs in ctx.cg.call_sites_of(f):
+        if g is f or g == f:
+            continue
+        bound = {}
+        for i, a in enumerate(cs.args):
+            pn = md._param_for(f, cs, None, i)
+            if pn is not None and not isinstance(a, ast.Starred):
+                bound[pn] = a
+        for k in cs.keywords:
+            pn = md._param_for(f, cs, k.arg, None) if k.arg is not None else None
+            if pn is not None:
+                bound[pn] = k.value
+        slg = Slicer(ctx, g)
+        k2 = set()
+        for r in kroots:
+            if r.startswith("global:"):
+                k2.add(r)
+                continue
+            head, _, rest = r.partition(".")
+            if f.self_name is not None and head == f.self_name:
+                recv = cs.func.value if isinstance(cs.func, ast.Attribute) else None
+                base = slg.roots(recv) if recv is not None else None
+            elif head in bound:
+                base = slg.roots(bound[head])
+            else:
+                base = None
+            if base is None:
+                raise AnalysisError(f"{rid}: cannot express the module name root `{r}` of the import in {f.qual} in terms of its caller "
+                                    f"{g.qual} (`{norm(cs)}`)")
+            for b in base:
+                k2.add(b if b.startswith("global:") or not rest else f"{b}.{rest}")
+        out += _import_hosts(ctx, md, rid, g, cs, k2, depth - 1)
+    return out
 
 
 # =====================================================================================================================
@@ -1749,6 +1816,9 @@ class ShallowFlow:
             for g, call in self.ctx.cg.call_sites_of(f):
                 self.push("shallow", g, call, origin)
             return
+        if isinstance(p, ast.Dict) and any(v is e and k is None for k, v in zip(p.keys, p.values)):
+            self.push("shallow", f, p, origin)         # {**shallow, ...}: the new dict shares the entries as well
+            return
         # reads: iteration over keys, membership, len(), truth value ...
         return
 
@@ -1863,7 +1933,9 @@ def r4_registry_copies(ctx, rid):
                 # `.copy()` / dict(c): e.node is the call producing the copy; `x.update(c)`: the receiver becomes shallow
                 n_src += 1
                 call = e.node
-                if isinstance(call.func, ast.Attribute) and call.func.attr in SHALLOW_READERS:
+                if isinstance(call, ast.Dict):
+                    fl.push("shallow", e.f, call, c.key)           # {**registry, ...}
+                elif isinstance(call.func, ast.Attribute) and call.func.attr in SHALLOW_READERS:
                     # find the registry reference among the arguments and treat it as a shallow container flowing into the receiver
                     for a in call.args:
                         if md.container_of_expr(e.f, e.module, a) is c:
